@@ -345,4 +345,27 @@ inductive Arg where
   | raw (go : String)
   deriving DecidableEq, Repr, Inhabited
 
+/-- The coercion branch of `engine.parsePrimitiveValue` as the translator finds it:
+    `if GUARD { if BOUND, err := HELPER(ARGS); SUCCESS { return VALIDATE(VALIDATEARGS) } }`. -/
+structure CoerceStep where
+  guard : String
+  helper : String
+  args : List Arg
+  bound : String
+  success : String
+  validate : String
+  validateArgs : List String
+  deriving DecidableEq, Repr, Inhabited
+
+/-- The `Parse` method of a primitive schema type: which engine entry point it calls, on which input, with
+    which validator; `base` = the engine's `T`. -/
+structure ParseRoute where
+  recv : String
+  entry : String
+  input : Arg
+  validator : String
+  base : String
+  pre : String            -- the statements of `Parse` before that call ("" = none)
+  deriving DecidableEq, Repr, Inhabited
+
 end Gozod.Dispatch
